@@ -30,14 +30,26 @@ QConst(v)         == [t |-> "const", v |-> v]
 QNot(arg)         == [t |-> "not", arg |-> arg]
 QLogical(op, l, r) == [t |-> "logical", op |-> op, l |-> l, r |-> r]
 QBoolean(isOr, l, r) == [t |-> "boolean", isOr |-> isOr, l |-> l, r |-> r]
+QNumeric(op, l, r) == [t |-> "numeric", op |-> op, l |-> l, r |-> r]
+\* position() / last(): a functionQuery whose Input is the builder's "first input" at the moment the call
+\* was built; only that query's node TEST is used (sibling scan), h = [has, ax, nt], has = FALSE: every node counts
+QFn(f, h)         == [t |-> "fn", f |-> f, h |-> h]
+NoHost == [has |-> FALSE, ax |-> "self", nt |-> NTNode]
+HostOf(s) == [has |-> TRUE, ax |-> s.ax, nt |-> s.nt]
+
+
 
 AxisKinds == {"child", "attr", "desc", "dod", "anc", "foll", "prec", "parent", "self"}
 
 \* a predicate the builder treats as positional: a number, or any function call (functionQuery's
 \* value type is "any", which canBeNumber accepts)
-Positional(p) == p.t = "num" \/ p.t = "call"
+RECURSIVE UsesPos(_)
+UsesPos(p) == CASE p.t = "call" -> p.f \in {"position", "last"} \/ (p.f = "not" /\ UsesPos(p.args[1]))
+                [] p.t = "bin" -> UsesPos(p.l) \/ UsesPos(p.r)
+                [] OTHER -> FALSE
+Positional(p) == p.t = "num" \/ p.t = "call" \/ (p.t = "bin" /\ p.op \in ArithOps) \/ UsesPos(p)
 
-RECURSIVE B2Steps(_, _, _, _), B2Expr(_, _), B2Chain(_, _, _)
+RECURSIVE B2Steps(_, _, _, _), B2ExprH(_, _, _), B2Chain(_, _, _, _)
 \* the axis query for one step over input `in` (kind depends on the SmartDesc flag only)
 AxisOf(s, smart, in) ==
     CASE s.ax = "ancestor"           -> QAxis("anc", FALSE, s.nt, s.ax, in)
@@ -54,8 +66,11 @@ AxisOf(s, smart, in) ==
       [] s.ax = "self"               -> QAxis("self", FALSE, s.nt, s.ax, in)
 
 \* filter(...filter(filter(base, p1), p2)..., pk)
-B2Chain(base, preds, smart) ==
-    IF preds = <<>> THEN base ELSE B2Chain(QFilter(base, B2Expr(Head(preds), smart)), Tail(preds), smart)
+\* h = the test position()/last() of the FIRST predicate scan with; later predicates see the previous
+\* filter query as "first input", which has no test
+B2Chain(base, preds, smart, h) ==
+    IF preds = <<>> THEN base ELSE B2Chain(QFilter(base, B2ExprH(Head(preds), smart, h)), Tail(preds), smart, NoHost)
+B2Expr(e, smart) == B2ExprH(e, smart, NoHost)
 
 B2Steps(steps, n, abs, smart) ==
     IF n = 0 THEN (IF abs THEN QAbs ELSE QCtx)
@@ -71,23 +86,27 @@ B2Steps(steps, n, abs, smart) ==
                   ax == AxisOf(s, hs, in)
               IN IF Len(s.preds) = 1 /\ Positional(s.preds[1]) /\ in.t # "ctx"
                  THEN \* merge rewrite: the step and its predicate are evaluated once per input node
-                      QMerge(in, QFilter(AxisOf(s, hs, QCtx), B2Expr(s.preds[1], smart)))
-                 ELSE B2Chain(ax, s.preds, smart)
+                      QMerge(in, QFilter(AxisOf(s, hs, QCtx), B2ExprH(s.preds[1], smart, [HostOf(s) EXCEPT !.has = (ax.t # "dod")])))
+                 ELSE B2Chain(ax, s.preds, smart, [HostOf(s) EXCEPT !.has = (ax.t # "dod")])
 
-B2Expr(e, smart) ==
+B2ExprH(e, smart, h) ==
     CASE e.t = "path"  -> B2Steps(e.steps, Len(e.steps), e.abs, smart)
       [] e.t = "num"   -> QConst([k |-> "n", v |-> e.v.n])          \* integer literals only
       [] e.t = "lit"   -> QConst([k |-> "s", v |-> e.s])
-      [] e.t = "call"  -> QNot(B2Expr(e.args[1], FALSE))             \* only not() in this fragment
-      [] e.t = "bin"   -> IF e.op \in {"and", "or"} THEN QBoolean(e.op = "or", B2Expr(e.l, FALSE), B2Expr(e.r, FALSE))
-                          ELSE QLogical(e.op, B2Expr(e.l, FALSE), B2Expr(e.r, FALSE))
+      [] e.t = "call"  -> IF e.f = "not" THEN QNot(B2ExprH(e.args[1], FALSE, h))       \* not(), position(), last() in this fragment
+                          ELSE QFn(e.f, h)
+      [] e.t = "bin"   -> \* (an operand that is a path would replace the builder's first input: the pool keeps
+                          \*  position()/last() out of predicates that also contain paths)
+                          IF e.op \in {"and", "or"} THEN QBoolean(e.op = "or", B2ExprH(e.l, FALSE, h), B2ExprH(e.r, FALSE, h))
+                          ELSE IF e.op \in ArithOps THEN QNumeric(e.op, B2ExprH(e.l, FALSE, h), B2ExprH(e.r, FALSE, h))
+                          ELSE QLogical(e.op, B2ExprH(e.l, FALSE, h), B2ExprH(e.r, FALSE, h))
       [] e.t = "filter" ->   \* (P)[p...] with a predicate-free path P; no steps after it in this fragment
            LET inner == B2Expr(e.e, FALSE)
            IN IF Len(e.preds) = 1 /\ Positional(e.preds[1]) /\ inner.t \in AxisKinds /\ inner.in.t # "ctx"
               THEN \* the builder's "first input" is the LAST AXIS QUERY INSIDE the group: it is re-rooted at the
                    \* context and the whole group is evaluated once per node of its former input
                    QMerge(inner.in, QFilter(QGroup([inner EXCEPT !.in = QCtx]), B2Expr(e.preds[1], smart)))
-              ELSE B2Chain(QGroup(inner), e.preds, smart)
+              ELSE B2Chain(QGroup(inner), e.preds, smart, NoHost)
 Build2(e) == B2Expr(e, FALSE)
 
 \* ---- iteration state -------------------------------------------------------
@@ -97,7 +116,8 @@ Base2 == [active |-> FALSE, node |-> 0, first |-> FALSE, level |-> 0, table |-> 
           attrPending |-> FALSE, posit |-> 0, pm |-> [i \in 0 .. MaxLevel |-> 0], list |-> <<>>, idx |-> 0, done |-> FALSE, count |-> 0]
 RECURSIVE Init2(_)
 Init2(q) ==
-    CASE q.t \in {"ctx", "abs", "const"} -> Base2
+    CASE q.t \in {"ctx", "abs", "const", "fn"} -> Base2
+      [] q.t = "numeric"     -> Base2 @@ [l |-> Init2(q.l), r |-> Init2(q.r)]
       [] q.t \in AxisKinds   -> [Base2 EXCEPT !.node = 0] @@ [in |-> Init2(q.in)]
       [] q.t = "filter"      -> Base2 @@ [in |-> Init2(q.in), pred |-> Init2(q.pred)]
       [] q.t = "merge"       -> Base2 @@ [in |-> Init2(q.in), child |-> Init2(q.child)]
@@ -112,6 +132,19 @@ DepthOf(q, st) == IF q.t = "desc" THEN st.level ELSE 0
 R2(n, st, ops) == [n |-> n, st |-> st, ops |-> ops]
 V2(v, st, ops) == [v |-> v, st |-> st, ops |-> ops]
 IsQ == [k |-> "q"]
+
+\* positionFunc: count the preceding siblings passing the host test;  lastFunc: MoveToFirst, then count along MoveToNext
+RECURSIVE PosScan(_, _, _, _, _), LastScan(_, _, _, _, _)
+HostTest(g, h, n) == IF h.has /\ "pos-ignores-test" \notin Deviations THEN TestOK(g, h.ax, h.nt, n) ELSE TRUE
+PosScan(g, h, n, count, ops) ==
+    LET pv == MvPrev(g.d, n)  o2 == Append(ops, Mv("prev", n, pv))
+    IN IF pv = 0 THEN [v |-> count, ops |-> o2] ELSE PosScan(g, h, pv, count + (IF HostTest(g, h, pv) THEN 1 ELSE 0), o2)
+LastScan(g, h, n, count, ops) ==
+    LET c2 == count + (IF HostTest(g, h, n) THEN 1 ELSE 0)
+        nx == MvNext(g.d, n)  o2 == Append(ops, Mv("next", n, nx))
+    IN IF nx = 0 THEN [v |-> c2, ops |-> o2] ELSE LastScan(g, h, nx, c2, o2)
+NumRel(op, a, b) == CASE op = "=" -> a = b [] op = "!=" -> a # b [] op = "<" -> a < b [] op = "<=" -> a <= b
+                      [] op = ">" -> a > b [] op = ">=" -> a >= b
 
 RECURSIVE Sel2(_, _, _, _), Ev2(_, _, _, _), DoPred(_, _, _, _, _), FollLoop2(_, _, _, _), PrecLoop2(_, _, _, _),
           DodLoop2(_, _, _, _, _, _), Drain2(_, _, _, _, _), CmpLoop(_, _, _, _, _, _, _), PrecNextRoot2(_, _, _, _)
@@ -194,6 +227,19 @@ Ev2(q, st, g, x) ==
                                       ELSE [st EXCEPT !.in = i.st, !.active = FALSE], i.ops)
       [] q.t = "group"  -> LET i == Ev2(q.in, st.in, g, x) IN V2(i.v, [st EXCEPT !.in = i.st], i.ops)
       [] q.t = "const"  -> V2(q.v, st, x.ops)
+      [] q.t = "fn" ->
+           IF q.f = "position"
+           THEN LET r == PosScan(g, q.h, x.c, 1, x.ops) IN V2([k |-> "n", v |-> r.v], st, r.ops)
+           ELSE LET f == MvFirst(g.d, x.c)
+                    r == LastScan(g, q.h, IF f = 0 THEN x.c ELSE f, 0, Append(x.ops, Mv("first", x.c, f)))
+                IN V2([k |-> "n", v |-> r.v], st, r.ops)
+      [] q.t = "numeric" ->     \* integers, + and - only
+           LET m == Ev2(q.l, st.l, g, x)
+               n == Ev2(q.r, st.r, g, [x EXCEPT !.ops = m.ops])
+               s1 == [st EXCEPT !.l = m.st, !.r = n.st]
+           IN IF m.v.k = "n" /\ n.v.k = "n" /\ q.op \in {"+", "-"}
+              THEN V2([k |-> "n", v |-> IF q.op = "+" THEN m.v.v + n.v.v ELSE m.v.v - n.v.v], s1, n.ops)
+              ELSE V2([k |-> "err", v |-> "outside the modelled fragment"], s1, n.ops)
       [] q.t = "not"    -> \* functionArgs clones the argument: a fresh state for every call
            LET a0 == Ev2(q.arg, Init2(q.arg), g, x)
            IN IF a0.v.k = "b" THEN V2([k |-> "b", v |-> ~a0.v.v], st, a0.ops)
@@ -212,6 +258,8 @@ Ev2(q, st, g, x) ==
                    IN V2(c.v, [s1 EXCEPT !.r = c.st], c.ops)
               ELSE IF m.v.k = "s" /\ n.v.k = "s"
               THEN V2([k |-> "b", v |-> IF q.op = "=" THEN m.v.v = n.v.v ELSE m.v.v # n.v.v], s1, n.ops)
+              ELSE IF m.v.k = "n" /\ n.v.k = "n"
+              THEN V2([k |-> "b", v |-> NumRel(q.op, m.v.v, n.v.v)], s1, n.ops)
               ELSE V2([k |-> "err", v |-> "outside the modelled fragment"], s1, n.ops)
       [] q.t = "boolean" ->
            LET m == Ev2(q.l, st.l, g, x)
@@ -241,7 +289,8 @@ Sel2(q, st, g, x) ==
       [] q.t \in {"child", "attr", "anc", "desc", "foll", "prec"} ->
            IF ~st.active
            THEN LET r == Sel2(q.in, st.in, g, x)
-                    s0 == [st EXCEPT !.in = r.st, !.posit = IF q.t \in {"child", "desc", "foll", "prec"} THEN 0 ELSE @]
+                    s0 == [st EXCEPT !.in = r.st, !.posit = IF q.t \in {"child", "desc", "foll", "prec"} /\ ~(q.t = "child" /\ "child-posit-not-reset" \in Deviations)
+                                                          THEN 0 ELSE @]
                 IN IF r.n = 0 THEN R2(0, s0, r.ops)
                    ELSE IF q.t = "attr" /\ g.d[r.n].k = "attr" THEN Sel2(q, s0, g, [x EXCEPT !.ops = r.ops])
                    ELSE Sel2(q, [s0 EXCEPT !.active = TRUE, !.node = r.n, !.first = TRUE, !.level = 0, !.subOn = FALSE,
